@@ -5,6 +5,7 @@ import Driver.Events
 import Driver.Mvcc
 import Driver.Query
 import Driver.Ident
+import Driver.Sign
 
 partial def loop (h : IO.FS.Stream) (out : IO.FS.Stream) (f : List String → String) : IO Unit := do
   let line ← h.getLine
@@ -27,6 +28,7 @@ def main (args : List String) : IO UInt32 := do
   match args with
   | ["enc"] => loop stdin stdout Driver.Enc.step; return 0
   | ["ident"] => loop stdin stdout Driver.Ident.step; return 0
+  | ["sign"] => loop stdin stdout Driver.Sign.step; return 0
   | ["fault"] => loop stdin stdout Driver.Fault.step; return 0
   | ["events"] => loopS stdin stdout Driver.Events.step ({} : Driver.Events.St); return 0
   | ["mvcc"] => loopS stdin stdout Driver.Mvcc.step ({} : Defra.Mvcc.DB); return 0
